@@ -46,7 +46,7 @@ package val
 
 //@ func (x Int8) Compare(y Comparable) int
 //@   mode bv
-//@   property C17
+//@   property C17 C16
 //@   requires dyn(y) == Int8
 //@   assigns nothing
 //@   ensures (result < 0) == (x < y.(Int8))
@@ -56,7 +56,7 @@ package val
 
 //@ func (x UInt8) Compare(b Comparable) int
 //@   mode bv
-//@   property C17
+//@   property C17 C16
 //@   requires dyn(b) == UInt8
 //@   assigns nothing
 //@   ensures (result < 0) == (x < b.(UInt8))
@@ -66,7 +66,7 @@ package val
 
 //@ func (x Int16) Compare(y Comparable) int
 //@   mode bv
-//@   property C17
+//@   property C17 C16
 //@   requires dyn(y) == Int16
 //@   assigns nothing
 //@   ensures (result < 0) == (x < y.(Int16))
@@ -76,7 +76,7 @@ package val
 
 //@ func (x UInt16) Compare(b Comparable) int
 //@   mode bv
-//@   property C17
+//@   property C17 C16
 //@   requires dyn(b) == UInt16
 //@   assigns nothing
 //@   ensures (result < 0) == (x < b.(UInt16))
@@ -86,7 +86,7 @@ package val
 
 //@ func (x Int32) Compare(y Comparable) int
 //@   mode bv
-//@   property C17
+//@   property C17 C16
 //@   requires dyn(y) == Int32
 //@   assigns nothing
 //@   ensures (result < 0) == (x < y.(Int32))
@@ -96,7 +96,7 @@ package val
 
 //@ func (x UInt32) Compare(b Comparable) int
 //@   mode bv
-//@   property C17
+//@   property C17 C16
 //@   requires dyn(b) == UInt32
 //@   assigns nothing
 //@   ensures (result < 0) == (x < b.(UInt32))
@@ -106,7 +106,7 @@ package val
 
 //@ func (x Int64) Compare(b Comparable) int
 //@   mode bv
-//@   property C17
+//@   property C17 C16
 //@   requires dyn(b) == Int64
 //@   assigns nothing
 //@   ensures (result < 0) == (x < b.(Int64))
@@ -116,7 +116,7 @@ package val
 
 //@ func (x UInt64) Compare(b Comparable) int
 //@   mode bv
-//@   property C17
+//@   property C17 C16
 //@   requires dyn(b) == UInt64
 //@   assigns nothing
 //@   ensures (result < 0) == (x < b.(UInt64))
@@ -126,7 +126,7 @@ package val
 
 //@ func (x Decimal64) Compare(b Comparable) int
 //@   mode bv
-//@   property C17
+//@   property C17 C16
 //@   requires dyn(b) == Decimal64 && !isNaN(x) && !isNaN(b.(Decimal64))
 //@   assigns nothing
 //@   ensures (result < 0) == (x < b.(Decimal64))
@@ -136,7 +136,7 @@ package val
 
 //@ func (x Bool) Compare(y Comparable) int
 //@   mode bv
-//@   property C17
+//@   property C17 C16
 //@   requires dyn(y) == Bool
 //@   assigns nothing
 //@   ensures (result < 0) == (!x && y.(Bool))
@@ -147,7 +147,7 @@ package val
 // enum values are int32 in YANG (RFC 7950 9.6.4.2); the grammar and the compiler only produce such ids
 //@ func (x Enum) Compare(b Comparable) int
 //@   mode bv
-//@   property C17
+//@   property C17 C16
 //@   requires dyn(b) == Enum
 //@   requires -2147483648 <= x.Id && x.Id <= 2147483647 && -2147483648 <= b.(Enum).Id && b.(Enum).Id <= 2147483647
 //@   assigns nothing
@@ -158,7 +158,7 @@ package val
 
 //@ func (x String) Compare(b Comparable) int
 //@   mode bv
-//@   property C17
+//@   property C17 C16
 //@   requires dyn(b) == String
 //@   assigns nothing
 //@   ensures sign(result) == strcmp(x, b.(String))
@@ -166,7 +166,7 @@ package val
 
 //@ func (x IdentRef) Compare(b Comparable) int
 //@   mode bv
-//@   property C17
+//@   property C17 C16
 //@   requires dyn(b) == IdentRef
 //@   assigns nothing
 //@   ensures sign(result) == strcmp(x.Label, b.(IdentRef).Label)
@@ -174,7 +174,7 @@ package val
 
 //@ func (x Binary) Compare(y Comparable) int
 //@   mode bv
-//@   property C17
+//@   property C17 C16
 //@   requires dyn(y) == Binary
 //@   assigns nothing
 //@   ensures sign(result) == strcmp(bytes(x), bytes(y.(Binary)))
